@@ -181,7 +181,7 @@ package dastard
 //@   ensures off: !dsp.EdgeTrigger ==> result == records
 //@   ensures kept: forall k int :: {result[k]} 0 <= k && k < len(records) ==> result[k] == old(records[k])
 //@   ensures found: dsp.EdgeTrigger ==> (forall k int :: {result[k]} len(records) <= k && k < len(result) ==> EdgeCrit(dsp, result[k].abs) && ScanFrom(dsp) <= result[k].abs && result[k].abs < ScanTo(dsp))
-//@   ensures spaced: forall j int, k int :: {result[j], result[k]} len(records) <= j && j < k && k < len(result) ==> result[j].abs + dsp.NSamples < result[k].abs
+//@   ensures spaced: forall j int, k int :: {result[j], result[k]} len(records) <= j && j < k && k < len(result) ==> result[j].abs + dsp.NSamples <= result[k].abs
 //@   ensures complete: dsp.EdgeTrigger ==> (forall a int :: {EdgeCrit(dsp, a)} ScanFrom(dsp) <= a && a < ScanTo(dsp) && EdgeCrit(dsp, a) ==> DeadAfter(result, dsp, len(records), a))
 //@   modifies records[*]
 //@   loop 1
@@ -200,8 +200,8 @@ package dastard
 //@     invariant labels: LabelsOK(dsp.stream) ==> RecsLabelled(records, dsp, 0)
 //@     invariant sound: Sound(records, dsp)
 //@     invariant kept: forall k int :: {records[k]} 0 <= k && k < len(old(records)) ==> records[k] == old(records[k])
-//@     invariant found: forall k int :: {records[k]} len(old(records)) <= k && k < len(records) ==> EdgeCrit(dsp, records[k].abs) && ScanFrom(dsp) <= records[k].abs && records[k].abs < ScanTo(dsp) && records[k].abs + dsp.NSamples < Base(dsp) + i
-//@     invariant spaced: forall j int, k int :: {records[j], records[k]} len(old(records)) <= j && j < k && k < len(records) ==> records[j].abs + dsp.NSamples < records[k].abs
+//@     invariant found: forall k int :: {records[k]} len(old(records)) <= k && k < len(records) ==> EdgeCrit(dsp, records[k].abs) && ScanFrom(dsp) <= records[k].abs && records[k].abs < ScanTo(dsp) && records[k].abs + dsp.NSamples <= Base(dsp) + i
+//@     invariant spaced: forall j int, k int :: {records[j], records[k]} len(old(records)) <= j && j < k && k < len(records) ==> records[j].abs + dsp.NSamples <= records[k].abs
 //@     invariant complete: forall a int :: {EdgeCrit(dsp, a)} ScanFrom(dsp) <= a && a < Base(dsp) + i && EdgeCrit(dsp, a) ==> DeadAfter(records, dsp, len(old(records)), a)
 //@     apply EdgeCritDef(dsp, Base(dsp) + i)
 //@     hint seed: wit(len(records) - 1)
